@@ -256,6 +256,24 @@ def check(case, ctx):
                     ctx.fail('reverse-unparsable', pmodel.render(expP), rs, how=how, text=s, swap_terms=swap)
                     continue
             cmp(ctx, 'reverse', expP, rx, how=how, text=s, swap_terms=swap, has_intervals=has_iv)
+        if st == 'ok' and not swap:
+            # start from a non-initial state: every slice and a shift of the reversed annotation
+            for i2 in range(0, n + 1):
+                for j2 in range(i2, n + 1):
+                    if cuts_inside(expP, i2, j2):
+                        continue
+                    st5, rs5 = lib.call(r.slice, i2, j2)
+                    ctx.evals += 1
+                    e5 = pmodel.expected(m_slice(expP, i2, j2))
+                    if st5 != 'ok' or pmodel.diff({f: e5[f] for f in ['sequence', 'internal', 'nterm', 'cterm', 'intervals']},
+                                                   pmodel.observed(rs5)):
+                        ctx.fail('slice-after-reverse', pmodel.render(m_slice(expP, i2, j2)),
+                                 rs5.serialize() if st5 == 'ok' else rs5, text=s, span=[i2, j2], has_intervals=has_iv)
+            st6, r6 = lib.call(r.shift, 1)
+            e6 = pmodel.expected(m_shift(expP, 1))
+            if st6 != 'ok' or pmodel.diff({f: e6[f] for f in ['sequence', 'internal', 'nterm', 'cterm']}, pmodel.observed(r6)):
+                ctx.fail('shift-after-reverse', pmodel.render(m_shift(expP, 1)), r6.serialize() if st6 == 'ok' else r6,
+                         text=s)
         if st == 'ok':
             if not swap:
                 perm_invariants(r, 'reverse')
